@@ -1,8 +1,9 @@
 /-
 Driver of the C04 section of the oracle.
 
-  @ C04 slice <cmp> v…       Slice[int] from FromSlice(v…)      ops: push pop peek len rm fix set setfix popall popalln
-  @ C04 heap <cmp>           two Heap[int] (A, B) from New(0,·) ops: init initc push pushe pop peek len rm fix setv setfix popall popalln
+  @ C04 slice <cmp> v…       Slice[int] from FromSlice(v…)      ops: push pop peek len rm fix set setfix popall popalln seq range rangeall
+  @ C04 heap <cmp>           two Heap[int] (A, B) from New(0,·) ops: init initc push pushe pop peek len rm fix setv setfix popall popalln seq range rangeall copyrm copyfix
+  @ C04 slicen <cmp> <cap>   Slice[int] from NewSlice(cap,·)     ops: as slice
   @ C04 generic <cmp> v…     recording container holding v…     ops: init push pop rm fix set
 
 After every operation the whole observable state is printed: `Slice.Values` / `Len()` of both
@@ -53,24 +54,46 @@ def parseSOp (ts : List String) : Option SOp :=
     if k = 0 then none else pure (.popAllN k)
   | _ => none
 
-def sliceStep (cmp : Int → Int → Bool) (s : List Int) (ts : List String) :
-    Option (Option (List Int × String)) :=
+/-- The slice driver's state: `Values` and the number of Seq values (`q := s.PopAll()`) the client
+holds — all of them denote this one slice, so `range i k` is `popalln k` for every known slot. -/
+def sliceStep (cmp : Int → Int → Bool) (st : List Int × Nat) (ts : List String) :
+    Option (Option ((List Int × Nat) × String)) :=
+  let s := st.1
   match ts with
   | ["set", i, v] => do
     let i ← i.toNat?; let v ← v.toInt?
-    if i < s.length then pure (some (s.set i v, s!"ok {showInts (s.set i v)}")) else none
+    if i < s.length then pure (some ((s.set i v, st.2), s!"ok {showInts (s.set i v)}")) else none
+  | ["seq"] => pure (some ((s, st.2 + 1), s!"ok {showInts s}"))
   | _ => do
-    let op ← parseSOp ts
-    pure ((stepS cmp s op).map fun (s1, r) => (s1, s!"{showSRet r} {showInts s1}"))
+    let op ← (match ts with
+      | ["range", i, k] => do
+        let i ← i.toNat?; let k ← k.toNat?
+        if i < st.2 ∧ k ≠ 0 then pure (SOp.popAllN k) else none
+      | ["rangeall", i] => do
+        let i ← i.toNat?
+        if i < st.2 then pure SOp.popAll else none
+      | _ => parseSOp ts)
+    pure ((stepS cmp s op).map fun (s1, r) => ((s1, st.2), s!"{showSRet r} {showInts s1}"))
+
+def runSliceFrom (cmp : Int → Int → Bool) (vs : List Int) (ops : List String) : List String :=
+  match Slice.fromSlice cmp vs with
+  | none => "panic" :: runOps (sliceStep cmp) none ops
+  | some s => s!"ok {showInts s}" :: runOps (sliceStep cmp) (some (s, 0)) ops
 
 def runSlice (hdr ops : List String) : List String :=
   match hdr with
   | c :: vs =>
     match cmpOf c, ints? vs with
-    | some cmp, some vs =>
-      match Slice.fromSlice cmp vs with
-      | none => "panic" :: runOps (sliceStep cmp) none ops
-      | some s => s!"ok {showInts s}" :: runOps (sliceStep cmp) (some s) ops
+    | some cmp, some vs => runSliceFrom cmp vs ops
+    | _, _ => bad ops
+  | _ => bad ops
+
+/-- `@ C04 slicen <cmp> <cap>` : `NewSlice(cap, cmp)` — the capacity is not observable. -/
+def runSliceN (hdr ops : List String) : List String :=
+  match hdr with
+  | [c, cap] =>
+    match cmpOf c, cap.toNat? with
+    | some cmp, some _ => runSliceFrom cmp [] ops
     | _, _ => bad ops
   | _ => bad ops
 
@@ -134,23 +157,47 @@ def parseHOp (cmp : Int → Int → Bool) (m : HMem) (ts : List String) : Option
     if k = 0 then none else pure (.popAllN h k)
   | _ => none
 
-def heapStep (cmp : Int → Int → Bool) (st : HState) (ts : List String) :
-    Option (Option (HState × String)) :=
+/-- One line → one `COp` of the client (`HOp`s, held Seq values, struct copies). -/
+def parseCOp (cmp : Int → Int → Bool) (c : HClient) (ts : List String) : Option COp :=
+  match ts with
+  | ["seq", h] => do pure (.seq (← parseHeap h))
+  | ["range", i, k] => do
+    let i ← i.toNat?; let k ← k.toNat?
+    if i < c.seqs.length ∧ k ≠ 0 then pure (.range i k) else none
+  | ["rangeall", i] => do
+    let i ← i.toNat?
+    if i < c.seqs.length then pure (.rangeAll i) else none
+  | ["copyrm", h, e] => do
+    let h ← parseHeap h; let e ← parseElem c.st.m e
+    pure (.copyRemove h e)
+  | ["copyfix", h, e] => do
+    let h ← parseHeap h; let e ← parseElem c.st.m e
+    pure (.copyFix h e)
+  | _ => do pure (.op (← parseHOp cmp c.st.m ts))
+
+def heapStep (cmp : Int → Int → Bool) (c : HClient) (ts : List String) :
+    Option (Option (HClient × String)) :=
   match ts with
   | ["setv", e, v] => do
-    let e ← parseElem st.m e; let v ← v.toInt?
-    let m1 : HMem := { st.m with val := st.m.val.set e v }
-    pure (some ({ st with m := m1 }, s!"ok | {m1.dump}"))
+    let e ← parseElem c.st.m e; let v ← v.toInt?
+    let m1 : HMem := { c.st.m with val := c.st.m.val.set e v }
+    pure (some ({ c with st := { c.st with m := m1 } }, s!"ok | {m1.dump}"))
   | _ => do
-    let op ← parseHOp cmp st.m ts
-    pure ((stepH st op).map fun (st1, r) => (st1, s!"{showRet st1.m r} | {st1.m.dump}"))
+    let op ← parseCOp cmp c ts
+    pure ((stepC c op).map fun (c1, r) => (c1, s!"{showRet c1.st.m r} | {c1.st.m.dump}"))
 
+/-- `@ C04 heap <cmp> [<capA> <capB> [zv]]` : two heaps from `New(cap, cmp)` — or, with `zv`, two
+zero values that the generator initialises by `init`/`initc` before any other use. Neither the
+capacity nor the way the empty heap came about is observable. -/
 def runHeap (hdr ops : List String) : List String :=
-  match hdr with
-  | [c] =>
+  let go (c : String) : List String :=
     match cmpOf c with
-    | some cmp => s!"ok | {HMem.zero.dump}" :: runOps (heapStep cmp) (some (HState.zero cmp)) ops
+    | some cmp => s!"ok | {HMem.zero.dump}" :: runOps (heapStep cmp) (some ⟨HState.zero cmp, []⟩) ops
     | none => bad ops
+  match hdr with
+  | [c] => go c
+  | [c, a, b] => if a.toNat?.isSome ∧ b.toNat?.isSome then go c else bad ops
+  | [c, a, b, "zv"] => if a.toNat?.isSome ∧ b.toNat?.isSome then go c else bad ops
   | _ => bad ops
 
 /-! ### generic functions on the recording container -/
@@ -193,6 +240,7 @@ def runGeneric (hdr ops : List String) : List String :=
 def runCase (hdr : List String) (ops : List String) : List String :=
   match hdr with
   | "slice" :: rest => runSlice rest ops
+  | "slicen" :: rest => runSliceN rest ops
   | "heap" :: rest => runHeap rest ops
   | "generic" :: rest => runGeneric rest ops
   | _ => bad ops
